@@ -3,6 +3,7 @@ package props
 import (
 	"fmt"
 	"go/token"
+	"go/types"
 	"strings"
 
 	"golang.org/x/tools/go/ssa"
@@ -131,12 +132,24 @@ func runC19(c *Ctx) {
 
 	// ---- R19.3 results under mu -------------------------------------------------------
 	nAcc := 0
+	beT := p.Named(backendPkg, "ClassifierBackend")
+	resultsField, okRF := "", false
+	muFieldBE, okMF := "", false
+	if beT != nil {
+		resultsField, okRF = core.UniqueField(beT, func(t types.Type) bool { _, isSl := t.Underlying().(*types.Slice); return isSl })
+		muFieldBE, okMF = core.UniqueField(beT, func(t types.Type) bool {
+			return core.IsNamedType(t, "sync", "Mutex") || core.IsNamedType(t, "sync", "RWMutex")
+		})
+	}
+	if !c.R.Anchor(okRF && okMF, "backend.ClassifierBackend: one result slice guarded by one mutex") {
+		return
+	}
 	for _, f := range pkgFuncs(p, backendPkg) {
 		lf := eng.NewLockFlow(f)
 		for _, b := range f.Blocks {
 			for _, in := range b.Instrs {
 				fa, ok := in.(*ssa.FieldAddr)
-				if !ok || core.FieldName(fa) != "results" || !strings.HasSuffix(core.TypeName(fa.X.Type()), "backend.ClassifierBackend") {
+				if !ok || core.FieldName(fa) != resultsField || !strings.HasSuffix(core.TypeName(fa.X.Type()), "backend.ClassifierBackend") {
 					continue
 				}
 				if f.Name() == "GetResults" || isFreshBase(fa.X) {
@@ -156,7 +169,7 @@ func runC19(c *Ctx) {
 					nAcc++
 					held := 0
 					for k, v := range lf.Before[at] {
-						if strings.HasSuffix(k, "ClassifierBackend.mu") {
+						if strings.HasSuffix(k, "ClassifierBackend."+muFieldBE) {
 							held = v.Mode
 						}
 					}
